@@ -109,3 +109,14 @@ Definition fill_row_ok (row : string * string * string * list string) : bool :=
   if String.eqb meth "apply_to_mask" || has_sub "mask" key
   then forallb (fun a => negb (mem a image_fills)) reads
   else forallb (fun a => negb (mem a mask_fills)) reads.
+
+(* an own mask path that hands the mask to the class's image path (`self.apply(...)`) is acceptable only when that
+   image path reads no image fill attribute -- otherwise the mask would be filled with the image's value *)
+Definition apply_reads (tbl : list (string * string * string * list string)) (cname : string) : list string :=
+  flat_map (fun row => let '(c, m, k, r) := row in
+                       if String.eqb c cname && String.eqb m "apply" && String.eqb k "" then r else []) tbl.
+Definition mask_path_row_ok (tbl : list (string * string * string * list string))
+    (row : string * string * string * list string) : bool :=
+  let '(cname, meth, key, reads) := row in
+  negb (String.eqb meth "apply_to_mask" && mem "apply" reads) ||
+  forallb (fun a => negb (mem a image_fills)) (apply_reads tbl cname).
